@@ -568,6 +568,8 @@ func (e *Enc) runRoot() {
 					Text: "ensures " + cl.Text, Props: cl.Tags}
 				e.oblige(o)
 				o.Prefix = len(e.body)
+				// later clauses at this return may use this one (it is proved on its own)
+				e.assume(r.guard, f)
 			}
 			if c.HasMod {
 				e.frameObligations(fr, r, env, args)
